@@ -168,6 +168,12 @@ impl CounterMarker {
         Self::set_bits(&self.tracing_counter, dropped, COUNTER_MASK);
     }
 
+    #[cfg(feature = "verif")]
+    #[inline]
+    pub(crate) fn verif_raw(&self) -> (u16, u16) {
+        (self.tracing_counter.get(), self.counter.get())
+    }
+
     #[inline]
     pub(crate) fn is_not_marked(&self) -> bool {
         // true if (self.counter & BITS_MASK) is equal to 01 or 00,
